@@ -70,8 +70,9 @@ ASSUMPTIONS = [
     "glyph names with lower-case hexadecimal digits after uni/u (accepted by pdfminer, pinned by its unit tests, "
     "rejected by AGL) and names where only some underscore components are unknown (DESIGN section 7) are outside "
     "the judged domain; they are still part of the model/implementation tie",
-    "a ToUnicode CMap that defines the same code twice is judged as 'last definition wins' except for pdfminer's "
-    "documented space/no-break-space rule, which is outside the judged domain (tie only)",
+    "a ToUnicode CMap that defines the same code twice is judged as 'last definition wins' with pdfminer's "
+    "documented space/no-break-space rule (a no-break-space definition does not replace a space) - stated exactly "
+    "(tuTextExact) and judged for every map since round 6",
     "the four base encoding tables are data (latin_enc.ENCODING); unknown base encoding names mean StandardEncoding",
     "widths are exact rationals; IEEE rounding is not modelled",
 ]
@@ -108,6 +109,12 @@ STATEMENT_STATUS: Dict[str, str] = {
     "header_ignored": "proved: the FontFile bytes have no influence unless the font is non-Type3, non-standard-14 and "
                       "has no Encoding entry",
     "exampleHeader_puts / put_underflow_ignored / odd_dict_raises": "proved by kernel evaluation of the tokeniser model on concrete headers",
+    "tounicode_exact / tounicode_exact_noclash / tounicode_last_wins_cex": "proved: for EVERY ToUnicode map the value of a code is "
+        "the most recent definition except that U+00A0 does not replace U+0020; equals 'last wins' without such a pair; "
+        "'last wins' proved false in general (documented deviation of pdfminer)",
+    "C06_unicode_precedence_exact / C06_text_precedence_exact / C06_width_precedence_exact / judgedCode_exact / width_of_unicode":
+        "proved: the precedence theorems with NO exclusion of space/no-break-space maps (judged domain = judged glyph "
+        "name only); width_of_unicode holds for every code without hypothesis",
     "t1_roundtrip / t1_roundtrip_puts": "proved: for EVERY written header (any leading white space / comments; dup <key> "
                                         "/<name> put lines with signed keys, leading zeros, #xx escapes, any white "
                                         "space / comments between tokens, inert keywords, stray integers) tokeniser + "
@@ -371,9 +378,9 @@ def be(b: bytes) -> int:
 
 
 def expand_tounicode(entries) -> Tuple[Dict[int, str], bool]:
-    """Specification of a ToUnicode map: list of (code, text) definitions, last definition wins.
-    Second result: False when some code is defined both as space and as no-break space (pdfminer's
-    documented special rule; such maps are outside the judged domain)."""
+    """Specification of a ToUnicode map: list of (code, text) definitions; the last definition of a code wins,
+    except (pdfminer's documented rule, stated exactly in Lean as `tuTextExact`) that a definition as
+    no-break space does not replace a space.  Every map is judged (second result always True)."""
     defs: List[Tuple[int, str]] = []
 
     def put(code, raw):
@@ -396,9 +403,12 @@ def expand_tounicode(entries) -> Tuple[Dict[int, str], bool]:
                 continue
             for code, d in zip(range(be(lo), be(hi) + 1), e[3]):
                 put(code, bytes.fromhex(d))
-    spaces = {c for c, t in defs if t == " "}
-    judged = not any(t == "\u00a0" and c in spaces for c, t in defs)
-    return dict(defs), judged
+    eff: Dict[int, str] = {}
+    for c, t in defs:
+        if t == "\u00a0" and eff.get(c) == " ":
+            continue
+        eff[c] = t
+    return eff, True
 
 
 def name_of_tok(t) -> Optional[str]:
@@ -1101,10 +1111,20 @@ def gen_tounicode(rng) -> Tuple[List[Any], List[str]]:
     if ents and rng.random() < 0.3:
         # redefine a code (space then no-break space is pdfminer's special case)
         code = rng.randint(0, 255)
-        a, b = rng.choice([("0020", "00A0"), ("00A0", "0020"), ("0041", "0042"), ("0020", "00A0")])
-        ents.append(["c", "%02X" % code, a])
-        ents.append(["c", "%02X" % code, b])
+        seq = rng.choice([("0020", "00A0"), ("00A0", "0020"), ("0041", "0042"), ("0020", "00A0"),
+                          ("0020", "00A0", "00A0"), ("00A0", "0020", "00A0"), ("0020", "0058", "00A0"),
+                          ("0020", "00A0", "0058"), ("0020", "00A0", "0020", "00A0"), ("00200020", "00A0"),
+                          ("0020", "00A000A0"), ("0020", "D83D00A0")])
+        for k, a in enumerate(seq):
+            if k and rng.random() < 0.3 and 0 < code < 255:
+                # the redefinition through a range that covers the code
+                ents.append(["r", "%02X" % (code - 1), "%02X" % (code + 1), "%04X" % (int(a[-4:], 16) - 1)]
+                            if len(a) == 4 else ["c", "%02X" % code, a])
+            else:
+                ents.append(["c", "%02X" % code, a])
         kinds.append("tu:redefine")
+        if "00A0" in seq and "0020" in seq:
+            kinds.append("tu:space-nbsp-pair")
     return ents, kinds
 
 
